@@ -28,128 +28,51 @@ Definition ext (s s' : pst) : Prop := incl (p_backrefs s) (p_backrefs s').
 Lemma ext_refl s : ext s s. Proof. apply incl_refl. Qed.
 Lemma ext_trans a b c : ext a b -> ext b c -> ext a c. Proof. apply incl_tran. Qed.
 
-Lemma refs_mono B B' : incl B B' -> forall e, refs_ok True (fun g => In g B) e -> refs_ok True (fun g => In g B') e.
-Proof.
-  intros Hi. induction e using expr_ind'; intros Hr; try exact I.
-  - rewrite refs_ok_concat in *. induction H as [|x r Hx Hrr IH]; [exact I|]. destruct Hr; split; auto.
-  - rewrite refs_ok_alt in *. induction H as [|x r Hx Hrr IH]; [exact I|]. destruct Hr; split; auto.
-  - cbn [refs_ok] in *. auto.
-  - cbn [refs_ok] in *. auto.
-  - cbn [refs_ok] in *. auto.
-  - cbn [refs_ok] in *. auto.
-  - cbn [refs_ok] in *. auto.
-  - cbn [refs_ok] in *. auto.
-  - cbn [refs_ok] in *. destruct Hr as (A & B0 & C). auto.
-Qed.
-Lemma G_mono s s' e : ext s s' -> G (p_backrefs s) e -> G (p_backrefs s') e.
-Proof. intros He [H1 H2]. split; auto. eapply refs_mono; eauto. Qed.
-Lemma G_leaf B e : (match e with
-                    | Empty | Any _ | Assertion _ | Literal _ _ | KeepOut | ContinueFromPreviousMatchEnd
-                    | SubroutineCall _ | Delegate _ _ _ (DClass _) => True | _ => False end) -> G B e.
-Proof.
-  destruct e; try (intros []; fail); try (intros _; split; [exact I|split; exact I]).
-  destruct k; [intros _; split; [exact I|split; exact I]|intros []].
-Qed.
 
-Lemma Forall_G_mono s s' l : ext s s' -> Forall (G (p_backrefs s)) l -> Forall (G (p_backrefs s')) l.
-Proof. intros He H. eapply Forall_impl; [|exact H]. intros a. now apply G_mono. Qed.
-Lemma G_concat B l : Forall (G B) l -> G B (Concat l).
-Proof.
-  intros H. unfold G, Z. rewrite refs_ok_concat, zok_concat, lbz_concat.
-  induction H as [|x r (H1 & H2 & H3) Hr (I1 & I2 & I3)]; [repeat split|]. cbn. tauto.
-Qed.
-Lemma G_alt B l : Forall (G B) l -> G B (Alt l).
-Proof.
-  intros H. unfold G, Z. rewrite refs_ok_alt, zok_alt, lbz_alt.
-  induction H as [|x r (H1 & H2 & H3) Hr (I1 & I2 & I3)]; [repeat split|]. cbn. tauto.
-Qed.
-Lemma G_alt_inv B l : G B (Alt l) -> Forall (G B) l.
-Proof.
-  unfold G, Z. rewrite refs_ok_alt, zok_alt, lbz_alt. induction l as [|x r IH]; intros (H1 & H2 & H3); constructor.
-  - cbn in *. tauto.
-  - apply IH. cbn in *. tauto.
-Qed.
-
-Section P.
+(* ====== the induction over the seven mutually recursive parser functions, for ANY invariant ====== *)
+Section Gen.
 Variable re : list nat.
+Variable Q : pst -> expr -> Prop.
+Hypothesis G_mono : forall s s' e, ext s s' -> Q s e -> Q s' e.
+Hypothesis Q_empty : forall s, Q s Empty.
+Hypothesis Q_any : forall s b, Q s (Any b).
+Hypothesis Q_assert : forall s a, Q s (Assertion a).
+Hypothesis Q_lit : forall s ix b ci, byte re ix = Some b -> (length re <? ix + cp_len b) = false ->
+  Q s (Literal (sub re ix (ix + cp_len b)) ci).
+Hypothesis G_concat : forall s l, Forall (Q s) l -> Q s (Concat l).
+Hypothesis G_alt : forall s l, Forall (Q s) l -> Q s (Alt l).
+Hypothesis G_alt_inv : forall s l, Q s (Alt l) -> Forall (Q s) l.
+Hypothesis G_repeat : forall s c lo hi gr, Q s c -> Q s (Repeat c lo hi gr).
+Hypothesis G_atomic : forall s c, Q s c -> Q s (AtomicGroup c).
+Hypothesis G_group : forall s c, Q s c -> Q s (Group c).
+Hypothesis G_la : forall s c la, Q s c -> Q s (LookAround c la).
+Hypothesis G_bec : forall s g, Q s (Backref g) -> Q s (BackrefExistsCondition g).
+Hypothesis G_cond : forall s c y n, Q s c -> Q s y -> Q s n -> Q s (Conditional c y n).
+Hypothesis named_backref_G : forall st ix o c ar mk r,
+  (forall g, mk g = Backref g) \/ (forall g, mk g = SubroutineCall g) ->
+  parse_named_backref re st ix o c ar mk = POk r -> ext st (snd r) /\ Q (snd r) (snd (fst r)).
+Hypothesis numbered_backref_G : forall st ix mk r,
+  (forall g, mk g = Backref g) \/ (forall g, mk g = SubroutineCall g) ->
+  parse_numbered_backref re st ix mk = POk r -> ext st (snd r) /\ Q (snd r) (snd (fst r)).
+Hypothesis parse_escape_G : forall st ix ic r, parse_escape re st ix ic = POk r ->
+  ext st (snd r) /\ Q (snd r) (snd (fst r)).
+Hypothesis parse_class_G : forall st ix r, parse_class re st ix = POk r ->
+  ext st (snd r) /\ Q (snd r) (snd (fst r)).
 
 Ltac inv H := inversion H; subst; clear H.
 
-Lemma named_backref_G st ix o c ar mk r : (forall g, mk g = Backref g) \/ (forall g, mk g = SubroutineCall g) ->
-  parse_named_backref re st ix o c ar mk = POk r ->
-  ext st (snd r) /\ G (p_backrefs (snd r)) (snd (fst r)).
-Proof.
-  intros Hmk H. unfold parse_named_backref in H. destruct (length re <? ix); [discriminate|].
-  destruct (parse_id _ _ _ _) as [[id skip]|]; [|discriminate].
-  destruct (parse_group_ref st id) as [g|]; [|discriminate]. destruct (N.ltb g _); [|discriminate]. inv H. cbn [fst snd].
-  split; [intros x Hx; right; exact Hx|]. destruct Hmk as [E|E]; rewrite E; (split; [|split]); cbn; auto.
-Qed.
-Lemma numbered_backref_G st ix mk r : (forall g, mk g = Backref g) \/ (forall g, mk g = SubroutineCall g) ->
-  parse_numbered_backref re st ix mk = POk r ->
-  ext st (snd r) /\ G (p_backrefs (snd r)) (snd (fst r)).
-Proof.
-  intros Hmk H. unfold parse_numbered_backref in H. destruct (parse_decimal re ix) as [[e g]|]; [|discriminate].
-  destruct (N.ltb g _); [|discriminate]. inv H. cbn [fst snd].
-  split; [intros x Hx; right; exact Hx|]. destruct Hmk as [E|E]; rewrite E; (split; [|split]); cbn; auto.
-Qed.
+Lemma Forall_G_mono s s' l : ext s s' -> Forall (Q s) l -> Forall (Q s') l.
+Proof. intros He H. eapply Forall_impl; [|exact H]. intros a. now apply G_mono. Qed.
 
-Lemma parse_hex_G fl ix d r : parse_hex re fl ix d = POk r -> forall B, G B (snd r).
-Proof.
-  intros H B. unfold parse_hex in H. destruct (length re <=? ix); [discriminate|].
-  destruct ((ix + d <=? length re) && forallb is_hex_digit (sub re ix (ix + d))).
-  - destruct (_ || _); [discriminate|]. inv H. now apply G_leaf.
-  - destruct (byte_is re ix 123); [|discriminate]. destruct (hex_braced _ _ _ _ _) as [eh| | | |]; try discriminate.
-    cbn [pbind] in H. destruct (_ || _); [discriminate|]. inv H. now apply G_leaf.
-Qed.
-
-Lemma parse_escape_G st ix ic r : parse_escape re st ix ic = POk r ->
-  ext st (snd r) /\ G (p_backrefs (snd r)) (snd (fst r)).
-Proof.
-  intros H. unfold parse_escape in H. destruct (byte re (ix + 1)) as [b|]; [|discriminate].
-  cbv zeta in H.
-  repeat match type of H with
-  | (if ?c then _ else _) = POk _ => destruct c
-  | (match ?c with _ => _ end) = POk _ => destruct c eqn:?
-  | pbind ?m _ = POk _ => destruct m eqn:?; cbn [pbind] in H
-  end; try discriminate;
-  try (inv H; cbn [fst snd]; split; [apply ext_refl|]; first [now apply G_leaf|(split; [|split]); cbn; auto]; fail);
-  try (eapply named_backref_G; [|eassumption]; auto; fail);
-  try (eapply numbered_backref_G; [|eassumption]; auto; fail);
-  try (inv H; cbn [fst snd]; split; [apply ext_refl|]; eapply parse_hex_G; eassumption).
-Qed.
-
-Lemma class_loop_ext : forall fuel st ix nest cls r, class_loop re fuel st ix nest cls = POk r -> ext st (snd r).
-Proof.
-  induction fuel as [|f IH]; intros st ix nest cls r H; cbn [class_loop] in H; [discriminate|].
-  destruct (ix =? length re); [discriminate|]. destruct (byte re ix) as [b|]; [|discriminate].
-  destruct (b =? 92).
-  - destruct (parse_escape re st ix true) as [[[e x] st']| | | |] eqn:E; try discriminate. cbn [pbind] in H.
-    pose proof (parse_escape_G _ _ _ _ E) as [He _]. cbn [snd] in He.
-    destruct x; try discriminate; eapply ext_trans; try exact He; eapply IH; eauto.
-  - destruct (b =? 91); [eapply IH; eauto|]. destruct (b =? 93).
-    + destruct nest as [|[|n]]; [discriminate| |eapply IH; eauto]. inv H. apply ext_refl.
-    + destruct (length re <? ix + cp_len b); [discriminate|]. eapply IH; eauto.
-Qed.
-
-Lemma parse_class_G st ix r : parse_class re st ix = POk r -> ext st (snd r) /\ G (p_backrefs (snd r)) (snd (fst r)).
-Proof.
-  intros H. unfold parse_class in H. destruct (byte_is re (ix + 1) 94); cbv zeta beta iota in H.
-  all: match type of H with context[if ?c then _ else _] => destruct c end; cbv beta iota in H.
-  all: match type of H with pbind ?m _ = _ => destruct m as [[[e cls] st']| | | |] eqn:E end; try discriminate; cbn [pbind] in H.
-  all: inv H; cbn [fst snd]; split; [apply (class_loop_ext _ _ _ _ _ _ E)|now apply G_leaf].
-Qed.
-
-Definition OK3 (st : pst) (r : P3) : Prop := ext st (snd r) /\ G (p_backrefs (snd r)) (snd (fst r)).
+Definition OK3 (st : pst) (r : P3) : Prop := ext st (snd r) /\ Q (snd r) (snd (fst r)).
 
 Lemma OK3_trans st st1 r : ext st st1 -> OK3 st1 r -> OK3 st r.
 Proof. intros H [H1 H2]. split; auto. eapply ext_trans; eauto. Qed.
 
-Lemma zok_la c la : zok c -> zok (LookAround c la).
-Proof. intros H. destruct c; cbn [zok] in *; auto. destruct k; auto. Qed.
 
 Definition S_re f := forall st ix d r, parse_re re f st ix d = POk r -> OK3 st r.
-Definition S_alt f := forall st ix d ch r, alt_loop re f st ix d ch = POk r -> Forall (G (p_backrefs st)) ch -> OK3 st r.
-Definition S_branch f := forall st ix d ch r, parse_branch re f st ix d ch = POk r -> Forall (G (p_backrefs st)) ch -> OK3 st r.
+Definition S_alt f := forall st ix d ch r, alt_loop re f st ix d ch = POk r -> Forall (Q st) ch -> OK3 st r.
+Definition S_branch f := forall st ix d ch r, parse_branch re f st ix d ch = POk r -> Forall (Q st) ch -> OK3 st r.
 Definition S_piece f := forall st ix d r, parse_piece re f st ix d = POk r -> OK3 st r.
 Definition S_atom f := forall st ix d r, parse_atom re f st ix d = POk r -> OK3 st r.
 Definition S_group f := forall st ix d r, parse_group re f st ix d = POk r -> OK3 st r.
@@ -226,10 +149,10 @@ Proof.
   - inv H. split; [apply ext_refl|]. cbn [fst snd]. now apply G_alt.
 Qed.
 
-Lemma finish_G (st : pst) ch : Forall (G (p_backrefs st)) ch ->
-  G (p_backrefs st) (match ch with [] => Empty | [c] => c | _ => Concat ch end).
+Lemma finish_G (st : pst) ch : Forall (Q st) ch ->
+  Q st (match ch with [] => Empty | [c] => c | _ => Concat ch end).
 Proof.
-  intros H. destruct ch as [|c [|c2 r]]; [now apply G_leaf|now inversion H|now apply G_concat].
+  intros H. destruct ch as [|c [|c2 r]]; [apply Q_empty|now inversion H|now apply G_concat].
 Qed.
 
 Lemma step_branch : S_branch (S f).
@@ -244,11 +167,6 @@ Proof.
   - pose proof (finish_G st ch Hch) as HG. destruct ch as [|c [|c2 r']]; inv H; split; auto; apply ext_refl.
 Qed.
 
-Lemma G_repeat B c lo hi gr : G B c -> G B (Repeat c lo hi gr). Proof. intros (H1 & H2 & H3). split; [|split]; auto. Qed.
-Lemma G_atomic B c : G B c -> G B (AtomicGroup c). Proof. intros (H1 & H2 & H3). split; [|split]; auto. Qed.
-Lemma G_group B c : G B c -> G B (Group c). Proof. intros (H1 & H2 & H3). split; [|split]; auto. Qed.
-Lemma G_la B c la : G B c -> G B (LookAround c la).
-Proof. intros (H1 & H2 & H3). split; [|split]; auto; [now apply zok_la|]. cbn [lbz]. split; auto. destruct la; auto. Qed.
 
 Lemma step_piece : S_piece (S f).
 Proof.
@@ -278,16 +196,16 @@ Qed.
 Lemma step_atom : S_atom (S f).
 Proof.
   intros st ix d r H. simpl parse_atom in H.
-  pb H E. rename a into ix1. destruct (ix1 =? length re); [inv H; split; [apply ext_refl|now apply G_leaf]|].
-  destruct (byte re ix1) as [b|]; [|discriminate].
-  destruct (b =? 46); [inv H; split; [apply ext_refl|now apply G_leaf]|].
-  destruct (b =? 94); [inv H; split; [apply ext_refl|now apply G_leaf]|].
-  destruct (b =? 36); [inv H; split; [apply ext_refl|now apply G_leaf]|].
+  pb H E. rename a into ix1. destruct (ix1 =? length re); [inv H; split; [apply ext_refl|apply Q_empty]|].
+  destruct (byte re ix1) as [b|] eqn:Eb; [|discriminate].
+  destruct (b =? 46); [inv H; split; [apply ext_refl|apply Q_any]|].
+  destruct (b =? 94); [inv H; split; [apply ext_refl|apply Q_assert]|].
+  destruct (b =? 36); [inv H; split; [apply ext_refl|apply Q_assert]|].
   destruct (b =? 40); [eapply I_group; eauto|].
   destruct (b =? 92); [eapply parse_escape_G; eauto|].
-  destruct (_ || _); [inv H; split; [apply ext_refl|now apply G_leaf]|].
+  destruct (_ || _); [inv H; split; [apply ext_refl|apply Q_empty]|].
   destruct (b =? 91); [eapply parse_class_G; eauto|].
-  destruct (length re <? ix1 + cp_len b); [discriminate|]. inv H. split; [apply ext_refl|now apply G_leaf].
+  destruct (length re <? ix1 + cp_len b) eqn:El; [discriminate|]. inv H. split; [apply ext_refl|]. cbn [fst snd]. apply Q_lit; auto.
 Qed.
 
 Lemma step_group : S_group (S f).
@@ -296,7 +214,7 @@ Proof.
   destruct (Consts.MAX_RECURSION <=? d + 1); [discriminate|].
   pb H E. rename a into ix1.
   assert (Hbody : forall (node : expr -> expr) pos st0 r0, ext st st0 ->
-    (forall B c, G B c -> G B (node c)) ->
+    (forall s c, Q s c -> Q s (node c)) ->
     (let! r1 := parse_re re f st0 pos (d + 1) in
      let '(ix2, child, st1) := r1 in
      let! ix3 := check_for_close_paren re (p_flags st1) ix2 in
@@ -327,23 +245,21 @@ Proof.
   destruct (b =? 45).
   { destruct neg; [destruct (length re <? ix1 + cp_len b); discriminate|eapply I_flags; eauto]. }
   destruct (b =? 41).
-  { destruct (_ || _); [destruct (length re <? ix1 + cp_len b); discriminate|]. inv H. split; [apply ext_refl|now apply G_leaf]. }
+  { destruct (_ || _); [destruct (length re <? ix1 + cp_len b); discriminate|]. inv H. split; [apply ext_refl|apply Q_empty]. }
   destruct (b =? 58); [|destruct (length re <? ix1 + cp_len b); discriminate].
   destruct (_ && _); [destruct (length re <? ix1 + cp_len b); discriminate|].
   pb H E1. destruct a as [[ix2 child] st1]. destruct (I_re _ _ _ _ E1) as [He Hg]. cbn [fst snd] in *.
   destruct (ix2 =? length re); [discriminate|]. destruct (negb (byte_is re ix2 41)); [discriminate|]. inv H.
-  split; cbn [fst snd]; auto.
+  split; cbn [fst snd]; [exact He|]. eapply G_mono; [|exact Hg]. apply incl_refl.
 Qed.
 
-Lemma G_bec B g : G B (Backref g) -> G B (BackrefExistsCondition g).
-Proof. intros (H1 & H2 & H3). split; [|split]; auto. Qed.
 
 Lemma step_cond : S_cond (S f).
 Proof.
   intros st ix d r H. simpl parse_conditional in H.
   destruct (length re <=? ix); [discriminate|]. destruct (byte re ix) as [b|]; [|discriminate].
   pb H E. destruct a as [[nx0 condition] st1].
-  assert (Hc : ext st st1 /\ G (p_backrefs st1) condition).
+  assert (Hc : ext st st1 /\ Q st1 condition).
   { destruct (is_digit b); [exact (numbered_backref_G st ix Backref _ (or_introl (fun g => eq_refl)) E)|].
     destruct (b =? 39); [exact (named_backref_G st ix _ _ _ Backref _ (or_introl (fun g => eq_refl)) E)|].
     destruct (b =? 60); [exact (named_backref_G st ix _ _ _ Backref _ (or_introl (fun g => eq_refl)) E)|].
@@ -356,20 +272,19 @@ Proof.
   destruct (e =? nx).
   - destruct condition; try discriminate. pb H E4. inv H. split; cbn [fst snd]; auto.
   - set (inner := match condition with Backref g => BackrefExistsCondition g | _ => condition end) in *.
-    assert (Hin : G (p_backrefs st2) inner) by (unfold inner; destruct condition; auto; now apply G_bec).
+    assert (Hin : Q st2 inner) by (unfold inner; destruct condition; auto; now apply G_bec).
     assert (Hpair : forall a b0, (let '(if_true, if_false) := (a, b0) in
               let! after := check_for_close_paren re (p_flags st2) e in
               POk (after, match if_true, if_false with Empty, Empty => inner | _, _ => Conditional inner if_true if_false end, st2)) = POk r ->
-              G (p_backrefs st2) a -> G (p_backrefs st2) b0 -> OK3 st r).
+              Q st2 a -> Q st2 b0 -> OK3 st r).
     { intros a b0 Hr Ha Hb. cbv beta iota in Hr. pb Hr E5. inv Hr. split; cbn [fst snd]; auto.
-      assert (HC : G (p_backrefs st2) (Conditional inner a b0)).
-      { destruct Hin as (I1 & I2 & I3), Ha as (A1 & A2 & A3), Hb as (B1 & B2 & B3). split; [|split]; cbn; auto. }
+      assert (HC : Q st2 (Conditional inner a b0)) by (now apply G_cond).
       destruct a; auto; destruct b0; auto. }
     destruct child;
-      try (match type of Hg2 with G _ ?c => apply (Hpair c Empty H Hg2); now apply G_leaf end; fail).
+      try (match type of Hg2 with Q _ ?c => apply (Hpair c Empty H Hg2); apply Q_empty end; fail).
     apply G_alt_inv in Hg2.
     destruct es as [|a [|b2 [|c3 rest]]].
-    + apply (Hpair (Alt []) Empty H); [now apply G_alt|now apply G_leaf].
+    + apply (Hpair (Alt []) Empty H); [now apply G_alt|apply Q_empty].
     + inversion Hg2; subst. apply (Hpair a (Alt []) H); [auto|now apply G_alt].
     + inversion Hg2 as [|? ? Ga Hr2]; subst. inversion Hr2; subst. apply (Hpair a b2 H); auto.
     + inversion Hg2 as [|? ? Ga Hr2]; subst. apply (Hpair a (Alt (b2 :: c3 :: rest)) H); [auto|now apply G_alt].
@@ -386,15 +301,161 @@ Proof.
     split; [now apply step_flags|now apply step_cond].
 Qed.
 
+
+Theorem parse_Q e st : parse re = POk (e, st) -> Q st e.
+Proof.
+  unfold parse. intros H. destruct (parse_re re (parse_fuel re) pst0 0 0) as [[[ix e0] st0]| | | |] eqn:E; try discriminate.
+  cbn [pbind] in H. destruct (ix <? length re); [discriminate|]. inv H.
+  destruct (proj1 (parse_all _) _ _ _ _ E) as [_ H1]. exact H1.
+Qed.
+End Gen.
+
+(* ====== instance 1: back-reference bookkeeping and the placement of the \Z helper ====== *)
+Lemma refs_mono B B' : incl B B' -> forall e, refs_ok True (fun g => In g B) e -> refs_ok True (fun g => In g B') e.
+Proof.
+  intros Hi. induction e using expr_ind'; intros Hr; try exact I.
+  - rewrite refs_ok_concat in *. induction H as [|x r Hx Hrr IH]; [exact I|]. destruct Hr; split; auto.
+  - rewrite refs_ok_alt in *. induction H as [|x r Hx Hrr IH]; [exact I|]. destruct Hr; split; auto.
+  - cbn [refs_ok] in *. auto.
+  - cbn [refs_ok] in *. auto.
+  - cbn [refs_ok] in *. auto.
+  - cbn [refs_ok] in *. auto.
+  - cbn [refs_ok] in *. auto.
+  - cbn [refs_ok] in *. auto.
+  - cbn [refs_ok] in *. destruct Hr as (A & B0 & C). auto.
+Qed.
+Lemma G_mono s s' e : ext s s' -> G (p_backrefs s) e -> G (p_backrefs s') e.
+Proof. intros He [H1 H2]. split; auto. eapply refs_mono; eauto. Qed.
+Lemma G_leaf B e : (match e with
+                    | Empty | Any _ | Assertion _ | Literal _ _ | KeepOut | ContinueFromPreviousMatchEnd
+                    | SubroutineCall _ | Delegate _ _ _ (DClass _) => True | _ => False end) -> G B e.
+Proof.
+  destruct e; try (intros []; fail); try (intros _; split; [exact I|split; exact I]).
+  destruct k; [intros _; split; [exact I|split; exact I]|intros []].
+Qed.
+
+Lemma Forall_GG_mono s s' l : ext s s' -> Forall (G (p_backrefs s)) l -> Forall (G (p_backrefs s')) l.
+Proof. intros He H. eapply Forall_impl; [|exact H]. intros a. now apply G_mono. Qed.
+Lemma G_concat B l : Forall (G B) l -> G B (Concat l).
+Proof.
+  intros H. unfold G, Z. rewrite refs_ok_concat, zok_concat, lbz_concat.
+  induction H as [|x r (H1 & H2 & H3) Hr (I1 & I2 & I3)]; [repeat split|]. cbn. tauto.
+Qed.
+Lemma G_alt B l : Forall (G B) l -> G B (Alt l).
+Proof.
+  intros H. unfold G, Z. rewrite refs_ok_alt, zok_alt, lbz_alt.
+  induction H as [|x r (H1 & H2 & H3) Hr (I1 & I2 & I3)]; [repeat split|]. cbn. tauto.
+Qed.
+Lemma G_alt_inv B l : G B (Alt l) -> Forall (G B) l.
+Proof.
+  unfold G, Z. rewrite refs_ok_alt, zok_alt, lbz_alt. induction l as [|x r IH]; intros (H1 & H2 & H3); constructor.
+  - cbn in *. tauto.
+  - apply IH. cbn in *. tauto.
+Qed.
+
+Section InstG.
+Variable re : list nat.
+
+Ltac inv H := inversion H; subst; clear H.
+
+Lemma named_backref_G st ix o c ar mk r : (forall g, mk g = Backref g) \/ (forall g, mk g = SubroutineCall g) ->
+  parse_named_backref re st ix o c ar mk = POk r ->
+  ext st (snd r) /\ G (p_backrefs (snd r)) (snd (fst r)).
+Proof.
+  intros Hmk H. unfold parse_named_backref in H. destruct (length re <? ix); [discriminate|].
+  destruct (parse_id _ _ _ _) as [[id skip]|]; [|discriminate].
+  destruct (parse_group_ref st id) as [g|]; [|discriminate]. destruct (N.ltb g _); [|discriminate]. inv H. cbn [fst snd].
+  split; [intros x Hx; right; exact Hx|]. destruct Hmk as [E|E]; rewrite E; (split; [|split]); cbn; auto.
+Qed.
+Lemma numbered_backref_G st ix mk r : (forall g, mk g = Backref g) \/ (forall g, mk g = SubroutineCall g) ->
+  parse_numbered_backref re st ix mk = POk r ->
+  ext st (snd r) /\ G (p_backrefs (snd r)) (snd (fst r)).
+Proof.
+  intros Hmk H. unfold parse_numbered_backref in H. destruct (parse_decimal re ix) as [[e g]|]; [|discriminate].
+  destruct (N.ltb g _); [|discriminate]. inv H. cbn [fst snd].
+  split; [intros x Hx; right; exact Hx|]. destruct Hmk as [E|E]; rewrite E; (split; [|split]); cbn; auto.
+Qed.
+
+Lemma parse_hex_G fl ix d r : parse_hex re fl ix d = POk r -> forall B, G B (snd r).
+Proof.
+  intros H B. unfold parse_hex in H. destruct (length re <=? ix); [discriminate|].
+  destruct ((ix + d <=? length re) && forallb is_hex_digit (sub re ix (ix + d))).
+  - destruct (_ || _); [discriminate|]. inv H. now apply G_leaf.
+  - destruct (byte_is re ix 123); [|discriminate]. destruct (hex_braced _ _ _ _ _) as [eh| | | |]; try discriminate.
+    cbn [pbind] in H. destruct (_ || _); [discriminate|]. inv H. now apply G_leaf.
+Qed.
+
+Lemma parse_escape_G st ix ic r : parse_escape re st ix ic = POk r ->
+  ext st (snd r) /\ G (p_backrefs (snd r)) (snd (fst r)).
+Proof.
+  intros H. unfold parse_escape in H. destruct (byte re (ix + 1)) as [b|]; [|discriminate].
+  cbv zeta in H.
+  repeat match type of H with
+  | (if ?c then _ else _) = POk _ => destruct c
+  | (match ?c with _ => _ end) = POk _ => destruct c eqn:?
+  | pbind ?m _ = POk _ => destruct m eqn:?; cbn [pbind] in H
+  end; try discriminate;
+  try (inv H; cbn [fst snd]; split; [apply ext_refl|]; first [now apply G_leaf|(split; [|split]); cbn; auto]; fail);
+  try (eapply named_backref_G; [|eassumption]; auto; fail);
+  try (eapply numbered_backref_G; [|eassumption]; auto; fail);
+  try (inv H; cbn [fst snd]; split; [apply ext_refl|]; eapply parse_hex_G; eassumption).
+Qed.
+
+Lemma class_loop_ext : forall fuel st ix nest cls r, class_loop re fuel st ix nest cls = POk r -> ext st (snd r).
+Proof.
+  induction fuel as [|f IH]; intros st ix nest cls r H; cbn [class_loop] in H; [discriminate|].
+  destruct (ix =? length re); [discriminate|]. destruct (byte re ix) as [b|]; [|discriminate].
+  destruct (b =? 92).
+  - destruct (parse_escape re st ix true) as [[[e x] st']| | | |] eqn:E; try discriminate. cbn [pbind] in H.
+    pose proof (parse_escape_G _ _ _ _ E) as [He _]. cbn [snd] in He.
+    destruct x; try discriminate; eapply ext_trans; try exact He; eapply IH; eauto.
+  - destruct (b =? 91); [eapply IH; eauto|]. destruct (b =? 93).
+    + destruct nest as [|[|n]]; [discriminate| |eapply IH; eauto]. inv H. apply ext_refl.
+    + destruct (length re <? ix + cp_len b); [discriminate|]. eapply IH; eauto.
+Qed.
+
+Lemma parse_class_G st ix r : parse_class re st ix = POk r -> ext st (snd r) /\ G (p_backrefs (snd r)) (snd (fst r)).
+Proof.
+  intros H. unfold parse_class in H. destruct (byte_is re (ix + 1) 94); cbv zeta beta iota in H.
+  all: match type of H with context[if ?c then _ else _] => destruct c end; cbv beta iota in H.
+  all: match type of H with pbind ?m _ = _ => destruct m as [[[e cls] st']| | | |] eqn:E end; try discriminate; cbn [pbind] in H.
+  all: inv H; cbn [fst snd]; split; [apply (class_loop_ext _ _ _ _ _ _ E)|now apply G_leaf].
+Qed.
+
+
+Definition QG (s : pst) (e : expr) : Prop := G (p_backrefs s) e.
+
+Lemma zok_la c la : zok c -> zok (LookAround c la).
+Proof. intros H. destruct c; cbn [zok] in *; auto. destruct k; auto. Qed.
+
 (* the analyzer's back-reference set, as lib.rs builds it from the parser's *)
 Definition bs_of (st : pst) : N -> bool := fun g => existsb (N.eqb g) (p_backrefs st).
 
 Theorem parse_tree_ok e st : parse re = POk (e, st) ->
   refs_ok True (fun g => bs_of st g = true) e /\ zok e /\ lbz e.
 Proof.
-  unfold parse. intros H. destruct (parse_re re (parse_fuel re) pst0 0 0) as [[[ix e0] st0]| | | |] eqn:E; try discriminate.
-  cbn [pbind] in H. destruct (ix <? length re); [discriminate|]. inv H.
-  destruct (proj1 (parse_all _) _ _ _ _ E) as [_ [H1 H2]]. cbn [fst snd] in *. split; [|exact H2].
+  intros Hp.
+  assert (HG : QG st e).
+  { refine (parse_Q re QG _ _ _ _ _ _ _ _ _ _ _ _ _ _ _ _ _ _ e st Hp); unfold QG.
+    - intros s s' x. apply G_mono.
+    - intros s. now apply G_leaf.
+    - intros s b. now apply G_leaf.
+    - intros s a. now apply G_leaf.
+    - intros s ix b ci _ _. now apply G_leaf.
+    - intros s l. apply G_concat.
+    - intros s l. apply G_alt.
+    - intros s l. apply G_alt_inv.
+    - intros s c lo hi gr (H1 & H2 & H3). split; [|split]; auto.
+    - intros s c (H1 & H2 & H3). split; [|split]; auto.
+    - intros s c (H1 & H2 & H3). split; [|split]; auto.
+    - intros s c la (H1 & H2 & H3). split; [|split]; auto; [now apply zok_la|]. cbn [lbz]. split; auto. destruct la; auto.
+    - intros s g (H1 & H2 & H3). split; [|split]; auto.
+    - intros s c y n (I1 & I2 & I3) (A1 & A2 & A3) (B1 & B2 & B3). split; [|split]; cbn; auto.
+    - apply named_backref_G.
+    - apply numbered_backref_G.
+    - apply parse_escape_G.
+    - apply parse_class_G. }
+  destruct HG as (H1 & H2 & H3). split; [|split; auto].
   unfold bs_of. clear -H1. revert H1. generalize (p_backrefs st). intros B.
   induction e using expr_ind'; intros Hr; try exact I.
   - rewrite refs_ok_concat in *. induction H as [|x r Hx Hrr IH]; [exact I|]. destruct Hr; split; auto.
@@ -407,5 +468,4 @@ Proof.
   - cbn [refs_ok] in *. apply existsb_exists. exists g. split; [exact Hr|apply N.eqb_refl].
   - cbn [refs_ok] in *. destruct Hr as (A & B0 & C). auto.
 Qed.
-
-End P.
+End InstG.
